@@ -391,13 +391,29 @@ func runMachine(p Program) {
 				keep = append(keep, g)
 			}
 		}
-		fmt.Fprintf(os.Stderr, "child: PROGRAM HUNG (30 s):\n%s\n", strings.Join(keep, "\n\n"))
+		reportStuck(keep)
 		fmt.Fprintln(os.Stderr, "=== CHILD DONE")
 		os.Exit(0)
 	}
 	cancel()
 	sched.Forget(m)
 	run.Close()
+}
+
+// reportStuck tells a deadlock (every goroutine inside the library is blocked) from a program that is
+// merely slow under the race detector and a loaded machine (some library goroutine is running).
+func reportStuck(stacks []string) {
+	for _, g := range stacks {
+		head := g
+		if i := strings.Index(g, "\n"); i > 0 {
+			head = g[:i]
+		}
+		if strings.Contains(head, "[runnable") || strings.Contains(head, "[running") {
+			fmt.Fprintf(os.Stderr, "child: PROGRAM SLOW (30 s, still running):\n%s\n", strings.Join(stacks, "\n\n"))
+			return
+		}
+	}
+	fmt.Fprintf(os.Stderr, "child: PROGRAM HUNG (30 s):\n%s\n", strings.Join(stacks, "\n\n"))
 }
 
 func runNetmach(p Program) {
@@ -507,7 +523,7 @@ func runNetmach(p Program) {
 				keep = append(keep, g)
 			}
 		}
-		fmt.Fprintf(os.Stderr, "child: PROGRAM HUNG (30 s):\n%s\n", strings.Join(keep, "\n\n"))
+		reportStuck(keep)
 		fmt.Fprintln(os.Stderr, "=== CHILD DONE")
 		os.Exit(0)
 	}
@@ -637,6 +653,14 @@ func checkPrograms(ps []Program, st *ev.Stats) error {
 			st.Inconclusive()
 		}
 		return nil
+	}
+	if strings.Contains(out, "child: PROGRAM SLOW") {
+		// not a deadlock: a library goroutine was still running after 30 s (race detector + loaded machine);
+		// races reported before that point are still judged below, the batch is counted inconclusive
+		if st != nil {
+			st.Inconclusive()
+			st.Class("inconclusive: a program was still running after 30 s")
+		}
 	}
 	if i := strings.Index(out, "child: PROGRAM HUNG"); i >= 0 {
 		return fmt.Errorf("a generated program did not finish within 30 s (deadlock?):\n%s", out[i:min(len(out), i+6000)])
